@@ -116,6 +116,21 @@ def encode_all(bs, acc, v, routes_full):
             if not (got == exp or (exp[0] == 'exc' and exc_is(got, 'ValueError'))):
                 acc.violation('encode', vkind(exp, got), dict(kind=k, value=v if abs(v) < 1 << 64 else str(v), route=rname, cls=cls),
                               snippet([], src.format(cls=cls, k=k, v=v), exp, conv="lambda r: r.bin"), exp, got)
+        if ok_ and routes_full:
+            # history: encode into a mutable owner, mutate it, encode the same value again (a shared codeword store would show)
+            for rname, fn, src in (ROUTES[5], ROUTES[0], ROUTES[1], ROUTES[3]):
+                try:
+                    x = fn(bs, 'BitStream' if rname != 'setattr' else 'BitArray', k, v)
+                    x.append('0b0101')
+                    x.invert()
+                except Exception:  # noqa: BLE001 - already reported above
+                    continue
+                again = obs(lambda: bs.Bits(**{k: v}).bin)
+                acc.step('encode', 1, nontrivial=1, ok=1)
+                if again != exp:
+                    acc.violation('encode', 'value', dict(kind=k, value=v, route=rname, group='after-mutating-earlier-result'),
+                                  '\n'.join(["import bitstring", f"x = {src.format(cls='BitStream', k=k, v=v)}", "x.append('0b0101'); x.invert()",
+                                             f"assert bitstring.Bits({k}={v}).bin == {exp[1]!r}, bitstring.Bits({k}={v}).bin"]), exp, again)
         if ok_:
             acc.outcome(('enc', k, exp[1][:40]))
             # decode it back through the property (exactly one codeword)
